@@ -1,6 +1,7 @@
 package pshell
 
 import (
+	"bufio"
 	"bytes"
 	"fmt"
 	"io"
@@ -200,6 +201,31 @@ type SplitCase struct {
 	Fields int   `json:"fields,omitempty"`
 	In     []int `json:"in"`
 	Frag   []int `json:"frag,omitempty"` // fragment lengths for the chunked reader (cyclic); empty = one byte at a time
+	// Src is the kind of io.Reader handed to NewScanner / Reset for the case's
+	// own fragment plan: 0 the chunked reader itself, 1 *strings.Reader, 2
+	// *bytes.Buffer, 3 bufio.NewReader(chunked) (4096 bytes: NewScanner adopts
+	// it as its own buffer), 4 bufio.NewReaderSize(chunked, 65536), 5
+	// bufio.NewReaderSize(chunked, 16), 6 the chunked reader behind io.LimitReader.
+	Src int `json:"src,omitempty"`
+}
+
+// srcReader wraps base (the chunked reader over in) as source kind src.
+func srcReader(src int, in string, base io.Reader) io.Reader {
+	switch src % 7 {
+	case 1:
+		return strings.NewReader(in)
+	case 2:
+		return bytes.NewBufferString(in)
+	case 3:
+		return bufio.NewReader(base)
+	case 4:
+		return bufio.NewReaderSize(base, 65536)
+	case 5:
+		return bufio.NewReaderSize(base, 16)
+	case 6:
+		return io.LimitReader(base, int64(len(in))+10)
+	}
+	return base
 }
 
 // fragReader delivers its data in the prescribed fragments; zero-length
@@ -247,9 +273,14 @@ func checkSplit(in string) (refResult, string) {
 }
 
 // checkScanner is O3 for one input and one fragmentation.
-func checkScanner(in string, ref refResult, frag []int, eofWith bool, reuse *shell.Scanner) string {
-	mk := func() io.Reader { return &fragReader{data: []byte(in), frag: frag, eofWith: eofWith} }
+func checkScanner(in string, ref refResult, frag []int, eofWith bool, reuse *shell.Scanner, src int) string {
+	mk := func() io.Reader {
+		return srcReader(src, in, &fragReader{data: []byte(in), frag: frag, eofWith: eofWith})
+	}
 	desc := fmt.Sprintf("input %q fragments %v eofWithData=%v", in, frag, eofWith)
+	if src%7 != 0 {
+		desc += fmt.Sprintf(" source kind %d (1 strings.Reader, 2 bytes.Buffer, 3 bufio.Reader, 4 bufio 64K, 5 bufio 16, 6 LimitReader)", src%7)
+	}
 	// Next/Text/Complete
 	sc := shell.NewScanner(mk())
 	var got []string
@@ -422,7 +453,11 @@ func runSplit(c SplitCase, o *vk.Obs) string {
 		plans = append([][]int{c.Frag}, fragPlans...)
 	}
 	for pi, fr := range plans {
-		if m := checkScanner(in, ref, fr, pi%2 == 1, reuse); m != "" {
+		src := 0
+		if pi == 0 {
+			src = c.Src // the case's own plan (or the first standard plan) runs on the case's source kind
+		}
+		if m := checkScanner(in, ref, fr, pi%2 == 1, reuse, src); m != "" {
 			return m
 		}
 	}
@@ -430,6 +465,7 @@ func runSplit(c SplitCase, o *vk.Obs) string {
 		o.NonTrivial()
 	}
 	o.ClassIf(!ref.Complete, "incomplete")
+	o.ClassIf(c.Src%7 >= 3 && c.Src%7 <= 5, "source_is_a_bufio.Reader")
 	o.ClassIf(c.Pad > 0, "input_crosses_4096_boundary")
 	o.ClassIf(c.Pad > 0 && c.PadKind%4 == 1, "single_quoted_run>=4096")
 	o.ClassIf(len(ref.Fields) >= 16, "fields>=16")
